@@ -9,6 +9,7 @@
    check <cls> <fix> <be> <hex>                 -> ok <hex> <lvl>:<msg>:<fixflag>,... | err raise
    default <cls> <be>                           -> ok <be> <hex>
    conv <src> <dst> <check> <be> <hex>          -> ok <hex> (native byte order) | err <enum>
+   sig <cls> <cifti 0/1> <hex>                  -> ok 0/1   signature of the class on header bytes
    copymut <be> <hex> <who o|c> <mut> <n> (<code> <hex>)*   header with n extensions, copy_ref, one mutation through the
         original (o) or the copy (c); mut = bytes:<hex> | append:<code>:<hex> | clear | set   (set: to [(7, xff)])
         -> ok shared=<0/1> orig=<be> <hex> <n> (<code> <hex>)* copy=<be> <hex> <n> ... *)
@@ -62,6 +63,7 @@ let handle op args = match op, args with
     (match from_header s d (bool_of_string ck) (decode_struct (layout_of s) (bool_of_string be) (bytes_of_hex h)) with
      | COk o -> "ok " ^ hex_of_bytes (encode_struct (layout_of d) native_be o)
      | CErr e -> "err " ^ string_of_cerr e)
+  | "sig", [c; cf; h] -> "ok " ^ string_of_bool (signature (cls_of_string c) (bool_of_string cf) (bytes_of_hex h))
   | "copymut", be :: h :: who :: mut :: n :: rest ->
     let rec exts k args = if k = 0 then [] else (match args with
       | c :: x :: r -> (z_of_string c, bytes_of_hex x) :: exts (k - 1) r | _ -> failwith "bad exts") in
